@@ -9,6 +9,8 @@
 (*              and the option tokenizer (OptTokOps, module composition).  Intended: the      *)
 (*              value is carried over unchanged; as built (Dev_Unquoted, open finding, pinned  *)
 (*              by the repository's html_to_nodes fixtures) it is written as a plain scalar.   *)
+(*  "title"     which first child of a div.admonition is taken as its title: a <p>/<div> whose   *)
+(*              class attribute has the TOKEN title or admonition-title (val = its class tokens) *)
 (*  "filter"    the GFM disallowed-raw-HTML filter as a scanner over symbols                   *)
 (*              "<" "/" "S" (a disallowed tag name) "s" (another name) " " ">" "x".            *)
 EXTENDS OptTokOps, FiniteSets, TLC, Json
@@ -16,7 +18,8 @@ EXTENDS OptTokOps, FiniteSets, TLC, Json
 CONSTANTS Part,
           ElemKinds, MaxElems,          \* classify: top-level element kinds
           Sigma, MaxLen,                \* attr: value alphabet (code points); filter: symbol alphabet (strings)
-          DevUnquoted
+          DevUnquoted,
+          DevTitleSubstring     \* a seeded change: "title" is looked for as a substring of the class attribute
 
 Strs(n) == UNION {[1..k -> Sigma] : k \in 0..n}
 ElemSeqs == UNION {[1..k -> ElemKinds] : k \in 0..MaxElems}
@@ -87,7 +90,18 @@ Neutralised == (Part = "filter" /\ pc = "done") =>
                  /\ \A n \in 1..Len(val) : IF Opens(val, n) THEN out[n] = "&lt;" ELSE out[n] = val[n]
                  /\ ~\E n \in 1..Len(out) : Opens(out, n)
 
-Next == Classify \/ AttrStep \/ FilterStep
+(* ------------------------------------------------------------------ title -------------- *)
+HasSub(tok) == tok \in {"title", "admonition-title", "subtitle", "card-title", "untitled"}     \* tokens that contain "title"
+TitleStep == /\ Part = "title" /\ pc = "start"
+             /\ out' = IF DevTitleSubstring
+                        THEN (IF \E n \in 1..Len(val) : HasSub(val[n]) THEN <<"title">> ELSE <<"body">>)
+                        ELSE (IF \E n \in 1..Len(val) : val[n] \in {"title", "admonition-title"} THEN <<"title">> ELSE <<"body">>)
+             /\ pc' = "done" /\ UNCHANGED <<elems, fimg, fadm, val>>
+(* S: only the documented title forms are titles; anything else stays in the body *)
+TitleRule == (Part = "title" /\ pc = "done") =>
+               (out = <<"title">>) = ("title" \in {val[n] : n \in 1..Len(val)} \/ "admonition-title" \in {val[n] : n \in 1..Len(val)})
+
+Next == Classify \/ AttrStep \/ FilterStep \/ TitleStep
 Spec == Init /\ [][Next]_vars /\ WF_vars(Next)
 Done == pc = "done"
 Terminates == <>Done
